@@ -453,7 +453,7 @@ func (x *agx) appendOne(s, tspec, kind string, withEx bool) *vx.Fail {
 		return vx.Failf("exemplar-unexpected-error", "exemplar for %s t=%d: %v", s, t, exErr)
 	}
 	race := x.m.known(s)
-	if accepted && x.m.mustReject(s, t) {
+	if accepted && x.m.mustReject(s, t) && !x.c15 {
 		msg := fmt.Sprintf("append %s t=%d (%s) was ACCEPTED although the series' last written sample is at %d and the out-of-order window is %d (history %v)", s, t, kind, x.m.last[s], x.cfg.W, x.hist)
 		if race != "" && x.soft != nil {
 			x.soft("stale-sample-accepted"+race, msg)
@@ -461,7 +461,7 @@ func (x *agx) appendOne(s, tspec, kind string, withEx bool) *vx.Fail {
 			return vx.Failf("stale-sample-accepted"+race, "%s", msg)
 		}
 	}
-	if !accepted && x.m.mustAccept(s, t) {
+	if !accepted && x.m.mustAccept(s, t) && !x.c15 {
 		return vx.Failf("in-window-sample-rejected"+race, "append %s t=%d (%s) was rejected (%v) although the series' last written sample is %v and the window is %d", s, t, kind, err, x.m.last[s], x.cfg.W)
 	}
 	if accepted {
@@ -889,55 +889,57 @@ func (x *agx) checkC48(w *agxWal) *vx.Fail {
 func (x *agx) checkC15(w *agxWal) *vx.Fail {
 	x.syncShadow()
 	op := strings.SplitN(x.lastOp, "/", 2)[0]
-	race := x.m.known("s1")
-	if race == "" {
-		race = x.m.known("s2")
-	}
+	owedFrom := x.maxMint
 	// (2) every non-series record refers to a series whose record precedes it
+	orphan := map[string]int{}
 	for _, it := range w.Items {
-		if it.Series == "" {
-			sig := "agent-record-without-preceding-series-record/" + it.Kind + race
-			msg := fmt.Sprintf("after %s: WAL (seg %d, -1=checkpoint) holds a %s record t=%d for ref %d, but no series record for that ref precedes it in replay order. history %v; wal: %s", x.lastOp, it.Seg, it.Kind, it.T, it.Ref, x.hist, w.Digest)
-			if x.soft != nil {
-				x.soft(sig, msg)
-				continue
-			}
-			return vx.Failf(sig, "%s", msg)
+		if it.Series != "" {
+			continue
 		}
+		orphan[fmt.Sprintf("%s@%d=%s", it.Kind, it.T, it.Val)]++
+		sig := "agent-record-without-preceding-series-record/before-truncation-time"
+		if it.T >= owedFrom {
+			// which series is it? the untruncated log knows; name the known precondition if one holds
+			known := x.m.known("s1")
+			if known == "" {
+				known = x.m.known("s2")
+			}
+			sig = "agent-record-without-preceding-series-record/at-or-after-truncation-time" + known
+		}
+		msg := fmt.Sprintf("after %s: WAL (seg %d, -1=checkpoint) holds a %s record t=%d for ref %d, but no series record for that ref precedes it in replay order (truncation time %d). history %v; wal: %s", x.lastOp, it.Seg, it.Kind, it.T, it.Ref, owedFrom, x.hist, w.Digest)
+		if x.soft != nil {
+			x.soft(sig, msg)
+			continue
+		}
+		return vx.Failf(sig, "%s", msg)
 	}
 	sh, f := agxDecode(x.shadow, x.cfg.ST, false)
 	if f != nil {
 		return vx.Failf("shadow-"+f.Signature, "shadow log: %s", f.Message)
 	}
-	// truncation time that applies to an item: the model's Released flag is per committed item;
-	// for the log comparison use the largest mint of any truncation so far.
-	owedFrom := x.maxMint
-	count := func(w *agxWal) (map[string]int, map[string]int) {
-		res, orph := map[string]int{}, map[string]int{}
+	count := func(w *agxWal) map[string]int {
+		res := map[string]int{}
 		for _, it := range w.Items {
-			if it.T < owedFrom {
-				continue
-			}
-			if it.Series == "" {
-				orph[fmt.Sprintf("%s@%d=%s", it.Kind, it.T, it.Val)]++
+			if it.T < owedFrom || it.Series == "" {
 				continue
 			}
 			res[agxItem{S: it.Series, Kind: it.Kind, T: it.T, Val: it.Val}.id()]++
 		}
-		return res, orph
+		return res
 	}
-	a, _ := count(sh)
-	b, _ := count(w)
-	for _, id := range vx.SortedKeys(a) {
-		if b[id] < a[id] {
-			sig := "agent-replay-lacks-data-of-untruncated-log/" + op + race
-			msg := fmt.Sprintf("after %s: untruncated log replays %s x%d (>= truncation time %d), checkpoint+segments x%d. history %v; wal: %s", x.lastOp, id, a[id], owedFrom, b[id], x.hist, w.Digest)
-			if race != "" && x.soft != nil {
-				x.soft(sig, msg)
-				continue
-			}
-			return vx.Failf(sig, "%s", msg)
+	a, b := count(sh), count(w)
+	for _, it := range sh.Items {
+		if it.T < owedFrom || it.Series == "" {
+			continue
 		}
+		id := agxItem{S: it.Series, Kind: it.Kind, T: it.T, Val: it.Val}.id()
+		if b[id] >= a[id] {
+			continue
+		}
+		if orphan[fmt.Sprintf("%s@%d=%s", it.Kind, it.T, it.Val)] > 0 {
+			continue // present but unusable: already reported by the orphan rule above
+		}
+		return vx.Failf("agent-replay-lacks-data-of-untruncated-log/"+op, "after %s: untruncated log replays %s x%d (>= truncation time %d), checkpoint+segments x%d. history %v; wal: %s", x.lastOp, id, a[id], owedFrom, b[id], x.hist, w.Digest)
 	}
 	for _, id := range vx.SortedKeys(b) {
 		if b[id] > a[id] {
